@@ -120,6 +120,7 @@ def invariant(R, g, op, mesh_valid=False):
         sharing = set(frozenset((id(a), id(b))) for cs in by_edge.values() if len(cs) == 2 for a, b in [cs])
         chk(all(len(cs) <= 2 for cs in by_edge.values()), 'mesh:edge-shared-by-more-than-two-columns', 'an edge belongs to 3 or more columns')
         chk(sharing <= connected, 'mesh:missing-connection', lambda: '%d pairs of columns share an edge without a connection' % len(sharing - connected))
+        if mesh_valid == 'no-missing-connection': return failed
         chk(connected <= sharing, 'mesh:extra-connection', lambda: '%d connections join columns that share no edge' % len(connected - sharing))
         chk(all(len(n.column) > 0 for n in g.nodelist), 'mesh:orphan-node', lambda: 'orphan nodes %r' % [n.name for n in g.nodelist if not n.column][:4])
     return failed
@@ -390,7 +391,7 @@ def mesh_is_valid(g):
     return not any(f.startswith('mesh:') for f in failed)
 
 
-NEED_VALID = {'refine', 'decompose', 'split_column', 'add_column'}
+NEED_VALID = {'refine', 'split_column', 'add_column'}      # (decompose_columns is applied from any state: it is held to its closing work only, see run_history)
 
 
 def is_connected(g):
@@ -430,7 +431,10 @@ def run_history(R, g, ops, chars, known_refresh=True):
         kinds.append(kind); R.label('op:' + kind)
         before = len(R.findings)
         # an operation that promises a valid mesh is held to that promise when it started from one
-        failed = invariant(R, g, kind, mesh_valid=(kind in PROMISE_VALID and (valid_before or kind == 'reduce')))
+        # (decompose_columns() ends by adding every missing connection and rebuilding the name lists, whatever it was given:
+        # from a state that was not valid before it is held to that much)
+        mv = (kind in PROMISE_VALID and (valid_before or kind == 'reduce')) or ('no-missing-connection' if kind == 'decompose' else False)
+        failed = invariant(R, g, kind, mesh_valid=mv)
         if failed:
             new = R.findings[before:]
             if all(known_match(known, s) is not None for s, _d in new):
